@@ -150,13 +150,180 @@ def _task(task):
     return t
 
 
+UNITS = None
+
+
+def units():
+    """Building blocks of 'any file': well-formed packets with extreme header values, garbage bytes, a header that promises more than follows."""
+    global UNITS
+    if UNITS is None:
+        UNITS = [
+            framing.mk_packet(b"\x11", apid=2047, seqcount=16383, version=7, type_=1, shflag=1, seqflags=3),   # every header field at its maximum
+            framing.mk_packet(b"\x00\x00", apid=0, seqcount=0, seqflags=0),                                    # every header field zero
+            framing.mk_packet(b"\x21\x22\x23", apid=300, seqcount=9, seqflags=1),
+            b"\x00",                                                                                             # stray byte: shifts everything after it
+            b"\xff\xff\xff",
+            b"\x08\x64\xc0\x01\x00\x09\xaa",                                                               # header promising 10 data bytes, 1 present
+        ]
+    return UNITS
+
+
+def _expect_listing(pkts):
+    want_rows = [header_tuple(p) for p in pkts]
+    if len(want_rows) > 10:
+        want_rows = want_rows[:5] + [("...",) * 7] + want_rows[-5:]
+    return want_rows
+
+
+def _task_anyfile(task):
+    """Files that are not tidy packet streams: every sequence of units (see units()), and every short byte string over a small alphabet.
+    Expected content: the greedy framing of the bytes (mc.framing.ref_frame), whatever they are."""
+    t = Tally()
+    work = task["work"]
+    os.makedirs(work, exist_ok=True)
+    xtce = os.path.join(work, f"c19a_{os.getpid()}.xml")
+    with open(xtce, "wb") as f:
+        f.write(HEADER_ONLY_XTCE)
+    path = os.path.join(work, f"c19a_{os.getpid()}.bin")
+    for label, data in task["files"]:
+        with open(path, "wb") as f:
+            f.write(data)
+        pkts, _ = framing.ref_frame(data, 0)
+        case = {"anyfile": label, "data": data.hex() if len(data) <= 64 else data[:64].hex() + "...", "n_framed": len(pkts)}
+        code, exc, out = invoke(["describe-packets", path])
+        t.evals += 1
+        t.outcomes[f"anyfile:describe:{min(len(pkts), 3)}+packets" if pkts else "anyfile:describe:none"] += 1
+        rows = table_rows(out)
+        if code != 0 or exc:
+            t.violation({"kind": "cli-crash", "cmd": "describe-packets", "exit": str(code), "exc": exc, "anyfile": True}, {**case, "cmd": "describe-packets"},
+                        observed=out[-400:], note="command did not end with exit code 0")
+        elif rows != _expect_listing(pkts):
+            t.violation({"kind": "listing-wrong", "anyfile": True}, {**case, "cmd": "describe-packets"}, expected=_expect_listing(pkts)[:12], observed=rows[:24])
+        code, exc, out = invoke(["parse", path, xtce])
+        t.evals += 1
+        shown = [int(x) for x in re.findall(r"'PKT_APID':\s*(\d+)", out)]
+        want = [header_tuple(p)[3] for p in pkts][:20]
+        if code != 0 or exc:
+            t.violation({"kind": "cli-crash", "cmd": "parse-all", "exit": str(code), "exc": exc, "anyfile": True}, {**case, "cmd": "parse"}, observed=out[-400:])
+        elif shown != want:
+            t.violation({"kind": "parse-all-wrong", "anyfile": True}, {**case, "cmd": "parse"}, expected=want, observed=shown[:24])
+        for i in sorted({0, len(pkts) - 1, len(pkts)} - {-1}):
+            code, exc, out = invoke(["parse", path, xtce, "--packet", str(i)])
+            t.evals += 1
+            shown = [int(x) for x in re.findall(r"'PKT_APID':\s*(\d+)", out)]
+            valid = i < len(pkts)
+            if code != 0 or exc:
+                t.violation({"kind": "cli-crash", "cmd": "parse", "exit": str(code), "exc": exc, "anyfile": True}, {**case, "cmd": "parse", "index": i}, observed=out[-400:])
+            elif valid and shown != [header_tuple(pkts[i])[3]]:
+                t.violation({"kind": "parse-shows-wrong-packet", "anyfile": True}, {**case, "cmd": "parse", "index": i}, expected=[header_tuple(pkts[i])[3]], observed=shown[:5])
+            elif not valid and (shown or not out.strip()):
+                t.violation({"kind": "parse-out-of-range-not-reported", "anyfile": True}, {**case, "cmd": "parse", "index": i}, observed=out[-300:])
+        t.nontrivial += 1
+    for pth in (path, xtce):
+        try:
+            os.unlink(pth)
+        except OSError:
+            pass
+    return t
+
+
+def _task_options(task):
+    """Group options (-q, -v, --log-level) and --max-items: none of them may change which packets are listed, or make a command fail."""
+    t = Tally()
+    work = task["work"]
+    os.makedirs(work, exist_ok=True)
+    xtce = os.path.join(work, f"c19o_{os.getpid()}.xml")
+    with open(xtce, "wb") as f:
+        f.write(HEADER_ONLY_XTCE)
+    path = os.path.join(work, f"c19o_{os.getpid()}.bin")
+    import logging
+    for n in task["ns"]:
+        pkts = packets_for(n)
+        with open(path, "wb") as f:
+            f.write(b"".join(pkts))
+        for g in ([], ["-q"], ["-v"], ["--log-level", "WARNING"], ["--log-level", "DEBUG"], ["-q", "-v"]):
+            logging.disable(logging.NOTSET)
+            try:
+                code, exc, out = invoke(g + ["describe-packets", path])
+            finally:
+                logging.disable(logging.CRITICAL)
+            t.evals += 1
+            case = {"cmd": "describe-packets", "n": n, "group_options": g}
+            rows = table_rows(out)
+            if code != 0 or exc:
+                t.violation({"kind": "cli-crash", "cmd": "describe-packets", "exit": str(code), "exc": exc, "group_options": " ".join(g)}, case, observed=out[-400:])
+            elif rows != _expect_listing(pkts):
+                t.violation({"kind": "listing-wrong", "group_options": " ".join(g)}, case, expected=_expect_listing(pkts)[:12], observed=rows[:24])
+            logging.disable(logging.NOTSET)
+            try:
+                code, exc, out = invoke(g + ["parse", path, xtce, "--packet", str(max(0, n - 1))])
+            finally:
+                logging.disable(logging.CRITICAL)
+            t.evals += 1
+            shown = [int(x) for x in re.findall(r"'PKT_APID':\s*(\d+)", out)]
+            if code != 0 or exc:
+                t.violation({"kind": "cli-crash", "cmd": "parse", "exit": str(code), "exc": exc, "group_options": " ".join(g)}, {**case, "cmd": "parse"}, observed=out[-400:])
+            elif shown != ([100 + n - 1] if n else []):
+                t.violation({"kind": "parse-shows-wrong-packet", "group_options": " ".join(g)}, {**case, "cmd": "parse"}, expected=[100 + n - 1] if n else [], observed=shown[:5])
+            t.nontrivial += 1
+        for k in (7, 10, 11, 20, 50):  # rich applies the limit to every container, also to a packet's own 7 items: smaller limits hide fields by design
+            code, exc, out = invoke(["parse", path, xtce, "--max-items", str(k)])
+            t.evals += 1
+            shown = [int(x) for x in re.findall(r"'PKT_APID':\s*(\d+)", out)]
+            want = [100 + i for i in range(min(n, k))]
+            case = {"cmd": "parse", "n": n, "max_items": k}
+            if code != 0 or exc:
+                t.violation({"kind": "cli-crash", "cmd": "parse-max-items", "exit": str(code), "exc": exc}, case, observed=out[-400:])
+            elif shown != want:
+                t.violation({"kind": "parse-all-wrong", "max_items": True}, case, expected=want, observed=shown[:24],
+                            note="with --max-items k the first min(n, k) packets are shown, each once, in order")
+            t.nontrivial += 1
+    for pth in (path, xtce):
+        try:
+            os.unlink(pth)
+        except OSError:
+            pass
+    return t
+
+
+def anyfiles(tier):
+    import itertools
+    u = units()
+    out = []
+    maxu = 3 if tier == "quick" else 5
+    for n in range(0, maxu + 1):
+        for seq in itertools.product(range(len(u)), repeat=n):
+            out.append(("units:" + "".join(map(str, seq)), b"".join(u[i] for i in seq)))
+    alpha = [0x00, 0xFF, 0x08]
+    for n in range(1, (6 if tier == "quick" else 9) + 1):
+        for bs in itertools.product(alpha, repeat=n):
+            out.append(("bytes:%d" % n, bytes(bs)))
+    # long homogeneous files beyond the elision threshold, with a stray byte at the front / in the middle / at the end
+    for n in (11, 12, 30):
+        body = [u[i % 3] for i in range(n)]
+        out.append((f"long:{n}", b"".join(body)))
+        out.append((f"long:{n}+tail", b"".join(body) + b"\x08\x64"))
+        out.append((f"long:{n}+head-garbage", b"\x00" + b"".join(body)))
+    # one maximum-size packet between two small ones
+    big = framing.mk_packet(bytes((i * 7 + 1) & 0xFF for i in range(65536)), apid=1234, seqcount=77)
+    out.append(("maxsize", u[2] + big + u[0]))
+    return out
+
+
 def run(ctx):
     ns = list(range(0, 14)) + [22, 25] if ctx.quick else list(range(0, 27)) + [40]
     tally = fan_out(_task, [{"ns": [n], "work": ctx.work} for n in ns], jobs=ctx.jobs, seed=ctx.seed, mem_gib=6.0)
+    from mc.kernel import chunked
+    files = anyfiles(ctx.tier)
+    tally.merge(fan_out(_task_anyfile, [{"files": ch, "work": ctx.work} for ch in chunked(files, 24)], jobs=ctx.jobs, seed=ctx.seed, mem_gib=6.0))
+    tally.merge(fan_out(_task_options, [{"ns": [n], "work": ctx.work} for n in ((0, 1, 3, 10, 11, 25) if ctx.quick else range(0, 27))], jobs=ctx.jobs, seed=ctx.seed, mem_gib=6.0))
     coverage = {
         "exhaustive": True,
         "bound": (f"files of n = {'0..13, 22, 25' if ctx.quick else '0..26 and 40'} packets, each also with 3 and 7 trailing bytes of an incomplete packet; "
-                  "describe-packets on each; parse --packet i for every i in 0..n+1; parse without index; parse --skip-header-bytes 4 on files with 4 foreign bytes per record, complete and cut short by 1..5 bytes"),
+                  "describe-packets on each; parse --packet i for every i in 0..n+1; parse without index; parse --skip-header-bytes 4 on files with 4 foreign bytes per record, complete and cut short by 1..5 bytes; "
+                  f"'any file': every sequence of <= {3 if ctx.quick else 5} units over 6 units (3 packets with extreme header values, stray bytes, a header promising more than follows), "
+                  f"every byte string of <= {6 if ctx.quick else 9} bytes over {{00, FF, 08}}, long files with garbage at the front/tail, a maximum-size packet ({len(files)} files), each through "
+                  "describe-packets, parse, parse --packet {0, last, last+1} against the greedy framing model; group options -q / -v / --log-level and --max-items 7..50"),
         "rule": "one evaluation = one CLI invocation through click's runner; distinct non-trivial = distinct (command, file, index) invocations",
     }
     return {"level": LEVEL, "tally": tally, "coverage": coverage,
@@ -165,6 +332,20 @@ def run(ctx):
 
 
 def replay(case):
+    work = os.path.join(os.path.dirname(os.path.dirname(os.path.dirname(os.path.abspath(__file__)))), ".work")
+    if "anyfile" in case:
+        files = [f for f in anyfiles("thorough") if f[0] == case["anyfile"] and (f[1].hex() == case["data"] or len(f[1]) > 64)]
+        t = _task_anyfile({"files": files, "work": work})
+        for v in t.violations:
+            if v["case"].get("cmd") == case.get("cmd") and v["case"].get("index") == case.get("index"):
+                return v
+        return None
+    if "group_options" in case or "max_items" in case:
+        t = _task_options({"ns": [case["n"]], "work": work})
+        for v in t.violations:
+            if all(v["case"].get(k) == case.get(k) for k in case):
+                return v
+        return None
     t = _task({"ns": [case["n"]], "work": os.path.join(os.path.dirname(os.path.dirname(os.path.dirname(os.path.abspath(__file__)))), ".work")})
     for v in t.violations:
         if all(v["case"].get(k) == case.get(k) for k in case):
